@@ -21,11 +21,13 @@ SKIPPED: list = []
 def run_gen(spec: dict, trace_path: Path, *, kill_at: int | None = None, shim_kill: int | None = None,
             shim_log: Path | None = None, watch: str | None = None, timeout: int = 900,
             n_devices: int = 1, maxarr: int = 0, kill_after: float | None = None, fs_delay_us: int = 0,
-            cwd: str | None = None, no_x64: bool = False):
+            cwd: str | None = None, no_x64: bool = False, env_extra: dict | None = None):
     """One OS process generation.  Returns (returncode, stderr tail)."""
     spec_path = trace_path.with_suffix(".spec.json")
     spec_path.write_text(json.dumps(spec))
     extra = {"MDPAX_VERIF_TRACE": str(trace_path), "MDPAX_VERIF_MAXARR": str(maxarr)}
+    if env_extra:
+        extra.update(env_extra)
     if no_x64:
         extra["VERIF_DRIVER_NO_X64"] = "1"
     if kill_at is not None:
@@ -452,7 +454,7 @@ def run_scenario(sc: dict, workdir: Path):
                           watch=A, n_devices=g.get("n_devices", 1), maxarr=100000 if sc.get("rtol") else 0,
                           kill_after=g.get("kill_after"), fs_delay_us=sc.get("fs_delay_us", 0),
                           cwd=str(base / g["cwd"]) if g.get("cwd") else (str(base) if sc.get("default_dir") else None),
-                          no_x64=bool(sc.get("no_x64")))
+                          no_x64=bool(sc.get("no_x64")), env_extra=sc.get("env"))
         events = read_events(tr)
         killed = rc == -9
         if rc not in (0, -9):
